@@ -9,7 +9,9 @@ from . import props_posix as PP
 from .props_zone import run_blocks, note_mismatches, site_sig
 
 THEOREMS = {'C12': ['Cctz.C12.constants', 'Cctz.C12.extend_no_unset', 'Cctz.C12.builtin_shape', 'Cctz.C12.load_safe', 'Cctz.C12.load_shape',
-                    'Cctz.C12.queries_safe', 'Cctz.C12.queries_safe_counterexample']}
+                    'Cctz.C12.queries_safe', 'Cctz.C12.queries_safe_counterexample',
+                    'Cctz.C12Tables.checkers_sound', 'Cctz.C12Tables.load_columns', 'Cctz.C12Tables.load_times', 'Cctz.C12Tables.load_wf',
+                    'Cctz.C12Tables.load_sentinels', 'Cctz.C12Tables.builtin_columns']}
 CAP = 16 * 1024 * 1024
 
 
@@ -66,8 +68,8 @@ def mutate(rng, base, others):
     if r < 0.18:      # bit flips
         for _ in range(rng.choice([1, 1, 2, 3, 8])):
             i = rng.randrange(n); b[i] ^= 1 << rng.randrange(8)
-    elif r < 0.30:    # truncation
-        del b[rng.randrange(n):]
+    elif r < 0.30:    # truncation (a third of them inside the footer / the last bytes)
+        del b[(n - rng.randrange(1, 40)) if (rng.random() < 0.35 and n > 40) else rng.randrange(n):]
     elif r < 0.40:    # splice with another file
         o = rng.choice(others)
         i = rng.randrange(n); j = rng.randrange(len(o))
@@ -112,7 +114,7 @@ def mutate(rng, base, others):
 
 
 def run_C12(chk):
-    chk.prepare_model('Cctz.Properties.C12', THEOREMS['C12'])
+    chk.prepare_model(['Cctz.Properties.C12', 'Cctz.Properties.C12Tables'], THEOREMS['C12'])
     exe = chk.harness('san')
     scale = chk.tier if not chk.broken else 'thorough'
     if exe is None or not getattr(chk, 'driver_ok', False):
